@@ -274,6 +274,8 @@ class GaussianBackend(BaseGaussian):
 
         if modes is None:
             modes = list(range(len(self.get_modes())))
+        elif isinstance(modes, int):
+            modes = [modes]
 
         # ``modes`` are positions in the list of active modes; after a deletion the data
         # of the k-th active mode does not sit in the k-th stored row any more
